@@ -19,6 +19,8 @@ class Facts:
         with open(path) as f:
             d = json.load(f)
         self.raw = d
+        import canon as _canon
+        self.field_renames = _canon.apply(d)  # private fields renamed back to the names the rules know
         self.crate = d["crate"]
         self.features = d["features"]
         self.bodies = {}
